@@ -174,6 +174,15 @@ Auth::Basic::Config::decodeCleartext(const char *httpAuthHeader, const HttpReque
     if (base64_decode_update(&ctx, &dstLen, reinterpret_cast<uint8_t*>(cleartext), srcLen, eek) && base64_decode_final(&ctx)) {
         cleartext[dstLen] = '\0';
 
+        // credentials are handled as C strings from here on: refuse an embedded NUL
+        // instead of silently truncating the user name or password at it
+        if (memchr(cleartext, '\0', dstLen)) {
+            debugs(29, DBG_IMPORTANT, "WARNING: NUL character in authorization header '" << httpAuthHeader << "'");
+            safe_free(cleartext);
+            safe_free(eek);
+            return nullptr;
+        }
+
         if (utf8 && !isValidUtf8String(cleartext, cleartext + dstLen)) {
             auto str = isCP1251EncodingAllowed(request) ?
                        Cp1251ToUtf8(cleartext) : Latin1ToUtf8(cleartext);
